@@ -20,6 +20,16 @@ deriving DecidableEq, Repr, Inhabited
 def Reason.toString : Reason → String
   | .evict => "evict" | .replace => "replace" | .remove => "remove" | .clear => "clear"
 
+/-- `foyer_common::properties::Location` (placement advice). -/
+inductive Loc where
+  | default | inMem | onDisk
+deriving DecidableEq, Repr, Inhabited
+
+/-- `foyer_common::properties::Age` of an entry w.r.t. the disk tier. -/
+inductive Age where
+  | fresh | young | old
+deriving DecidableEq, Repr, Inhabited
+
 structure Rec where
   id : Nat
   key : Nat
@@ -28,6 +38,8 @@ structure Rec where
   weight : Nat
   hint : Hint := .normal
   phantom : Bool := false
+  loc : Loc := .default
+  age : Age := .fresh
 deriving DecidableEq, Repr, Inhabited
 
 /-- Sum of weights. -/
